@@ -346,6 +346,7 @@ class VEngine(Engine):
         self.open_path_hook = None
         self.list_remove_hook = None
         self.re_sub_hook = None
+        self.pseudo_classes = {}
         self.dict_update_hook = None
         self.codepoint_mode = False
         self.site_hits = {}
